@@ -423,3 +423,412 @@ Qed.
 
 Lemma reachable_run tcp q0 s ls s' : reachable tcp q0 s -> run ls s = Some s' -> reachable tcp q0 s'.
 Proof. intros [l0 R] H. exists (l0 ++ ls). eapply run_app; eauto. Qed.
+
+(* ====================================================================================== *)
+(* C05_ids_fresh                                                                          *)
+(* ====================================================================================== *)
+Fixpoint nseq (a : N) (n : nat) : list N :=
+  match n with O => [] | S k => a :: nseq (a + 1) k end.
+
+(* wire ids in the order they were assigned *)
+Definition assigned_ids (s : state) : list N := rev (map snd (alog s)).
+
+Lemma nseq_snoc a n : nseq a n ++ [a + N.of_nat n] = nseq a (S n).
+Proof.
+  revert a. induction n as [|n IH]; intros a.
+  - cbn. f_equal. lia.
+  - cbn [nseq app]. f_equal. specialize (IH (a + 1)). cbn [nseq] in IH. rewrite <- IH. f_equal. f_equal. lia.
+Qed.
+
+Lemma alog_ok_seq q0 n l :
+  alog_ok q0 n l -> rev (map snd l) = nseq q0 (length l) /\ n = q0 + N.of_nat (length l).
+Proof.
+  revert n. induction l as [|[t w] l IH]; cbn [alog_ok map rev length snd]; intros n H.
+  - split; [reflexivity|]. cbn. lia.
+  - destruct H as [-> H]. destruct (IH _ H) as [E1 E2]. split.
+    + rewrite E1. rewrite E2 at 1. apply nseq_snoc.
+    + lia.
+Qed.
+
+Lemma nseq_in a n x : In x (nseq a n) -> a <= x < a + N.of_nat n.
+Proof.
+  revert a. induction n as [|n IH]; cbn [nseq]; intros a H; [destruct H|].
+  destruct H as [<-|H]; [lia|]. apply IH in H. lia.
+Qed.
+
+Lemma nseq_nodup a n : NoDup (nseq a n).
+Proof.
+  revert a. induction n as [|n IH]; intros a; cbn [nseq]; constructor; auto.
+  intros H. apply nseq_in in H. lia.
+Qed.
+
+Theorem ids_fresh tcp q0 s :
+  q0 <= 65536 -> reachable tcp q0 s ->
+  assigned_ids s = nseq q0 (length (alog s)) /\
+  nextQid s = q0 + N.of_nat (length (alog s)) /\
+  nextQid s <= 65536 /\
+  (forall w, In w (assigned_ids s) -> q0 <= w <= 65535) /\
+  NoDup (assigned_ids s).
+Proof.
+  intros Hq R. pose proof (reachable_inv _ _ _ Hq R) as I.
+  destruct (alog_ok_seq _ _ _ (inv_alog _ _ I)) as [E1 E2].
+  pose proof (inv_next _ _ I) as Hn.
+  unfold assigned_ids. rewrite E1. repeat split; auto.
+  - apply nseq_in in H. lia.
+  - apply nseq_in in H. lia.
+  - apply nseq_nodup.
+Qed.
+
+(* the id an exchange holds is the one logged for it, and two exchanges never hold the same id *)
+Theorem ids_exchange tcp q0 s :
+  q0 <= 65536 -> reachable tcp q0 s ->
+  (forall t th w, tget s t = Some th -> twid th = Some w -> In w (assigned_ids s)) /\
+  (forall t1 t2 th1 th2 w, tget s t1 = Some th1 -> tget s t2 = Some th2 ->
+     twid th1 = Some w -> twid th2 = Some w -> t1 = t2).
+Proof.
+  intros Hq R. pose proof (reachable_inv _ _ _ Hq R) as I. split.
+  - intros t th w G W. destruct (inv_threads _ _ I _ _ G) as (_ & K2 & _).
+    unfold assigned_ids. rewrite <- in_rev. apply K2 in W. apply (in_map snd) in W. exact W.
+  - intros. eapply wid_inj; eauto.
+Qed.
+
+(* the waiter table is never overwritten: the id addQueueC is about to assign has no entry *)
+Theorem add_no_overwrite tcp q0 s :
+  q0 <= 65536 -> reachable tcp q0 s -> forall w, nextQid s <= w -> alookup w (queue s) = None.
+Proof.
+  intros Hq R w Hw. pose proof (reachable_inv _ _ _ Hq R) as I.
+  destruct (alookup w (queue s)) as [t|] eqn:Q; auto.
+  destruct (inv_queue _ _ I _ _ Q) as (x & Hx & Hwid & _).
+  destruct (inv_threads _ _ I _ _ Hx) as (_ & K2 & _).
+  apply K2 in Hwid. apply (alog_ok_bounds _ _ _ (inv_alog _ _ I)) in Hwid. lia.
+Qed.
+
+(* after the last id (65535) has been used addQueueC fails: nothing is assigned, nothing wraps *)
+Theorem add_exhausted tcp q0 s t th :
+  q0 <= 65536 -> reachable tcp q0 s -> nextQid s = 65536 ->
+  tget s t = Some th -> tpc th = PStart ->
+  status_available s = false /\
+  exists s' th', step s (LAdd t) = Some s' /\
+    tget s' t = Some th' /\ tpc th' = PReturned RErrEoL /\ twid th' = None /\
+    nextQid s' = 65536 /\ alog s' = alog s /\ queue s' = queue s.
+Proof.
+  intros Hq R Hn G P. pose proof (reachable_inv _ _ _ Hq R) as I.
+  destruct (inv_threads _ _ I _ _ G) as (_ & _ & K3 & _).
+  split.
+  - unfold status_available. rewrite Hn. apply N.leb_gt. lia.
+  - cbn [step]. rewrite G, P. rewrite Hn. cbn [N.ltb N.compare Pos.compare Pos.compare_cont].
+    replace (65535 <? 65536) with true by reflexivity.
+    eexists. eexists. split; [reflexivity|].
+    rewrite tget_tput_same.
+    assert (E : tget (if 0 <? reserved s then set_reserved (reserved s - 1) s else s) t = Some th)
+      by (destruct (0 <? reserved s); exact G).
+    rewrite E. repeat split; cbn; auto; destruct (0 <? reserved s); cbn; auto.
+Qed.
+
+(* ... and the exhausted connection retires itself when its last waiter leaves *)
+Theorem retire_when_drained s t th r w :
+  nextQid s = 65536 -> tget s t = Some th -> tpc th = PLeaving r -> twid th = Some w ->
+  queue s = [(w, t)] ->
+  exists s1 s2, step s (LDelete t) = Some s1 /\ step s1 (LEolClose t) = Some s2 /\
+    closed s2 = true /\ queue s2 = [] /\ status_available s2 = false /\
+    exists th2, tget s2 t = Some th2 /\ tpc th2 = PReturned r.
+Proof.
+  intros Hn G P W Q.
+  set (s1 := tput t (th_pc (PEol r) th) (set_queue [] s)).
+  assert (S1 : step s (LDelete t) = Some s1).
+  { cbn [step]. rewrite G, P, W, Q, Hn. cbn [aremove]. rewrite N.eqb_refl. reflexivity. }
+  assert (G1 : tget s1 t = Some (th_pc (PEol r) th)).
+  { unfold s1. rewrite tget_tput_same. change (tget (set_queue [] s) t) with (tget s t). rewrite G. reflexivity. }
+  set (s2 := tput t (th_pc (PReturned r) (th_pc (PEol r) th)) (set_closed true s1)).
+  assert (S2 : step s1 (LEolClose t) = Some s2).
+  { cbn [step]. rewrite G1. reflexivity. }
+  exists s1, s2. repeat split; auto.
+  - unfold status_available. cbn. rewrite Hn. apply N.leb_gt. lia.
+  - eexists. split.
+    + unfold s2. rewrite tget_tput_same. change (tget (set_closed true s1) t) with (tget s1 t). rewrite G1. reflexivity.
+    + reflexivity.
+Qed.
+
+(* ====================================================================================== *)
+(* C05_delivery, C05_no_double                                                            *)
+(* ====================================================================================== *)
+Lemma with_id_back r w : with_id (with_id r w) (mhid r) = r.
+Proof. destruct r; reflexivity. Qed.
+
+Theorem delivery tcp q0 s t th r :
+  q0 <= 65536 -> reachable tcp q0 s ->
+  tget s t = Some th -> pc_result (tpc th) = Some (RMsg r) ->
+  exists w m, twid th = Some w /\ In m (emitted s) /\ mhid m = w /\ mhid m < 65536 /\ r = with_id m (cid th).
+Proof.
+  intros Hq R G P. pose proof (reachable_inv _ _ _ Hq R) as I.
+  destruct (inv_threads _ _ I _ _ G) as (_ & K2 & _ & _ & K5).
+  destruct (K5 _ P) as (w & W & Hin & Hc).
+  exists w, (with_id r w). repeat split; auto.
+  - cbn. apply K2 in W. apply (alog_ok_bounds _ _ _ (inv_alog _ _ I)) in W.
+    pose proof (inv_next _ _ I). lia.
+  - rewrite <- Hc. symmetry. apply with_id_back.
+Qed.
+
+Theorem no_double tcp q0 s t1 t2 th1 th2 r1 r2 :
+  q0 <= 65536 -> reachable tcp q0 s ->
+  tget s t1 = Some th1 -> tget s t2 = Some th2 ->
+  pc_result (tpc th1) = Some (RMsg r1) -> pc_result (tpc th2) = Some (RMsg r2) ->
+  mid r1 = mid r2 -> t1 = t2.
+Proof.
+  intros Hq R G1 G2 P1 P2 E. pose proof (reachable_inv _ _ _ Hq R) as I.
+  destruct (inv_threads _ _ I _ _ G1) as (_ & _ & _ & _ & K5).
+  destruct (inv_threads _ _ I _ _ G2) as (_ & _ & _ & _ & L5).
+  destruct (K5 _ P1) as (w1 & W1 & In1 & _). destruct (L5 _ P2) as (w2 & W2 & In2 & _).
+  assert (Em : with_id r1 w1 = with_id r2 w2).
+  { eapply in_mid_nodup; eauto using (inv_mid_nodup _ _ I). }
+  assert (w1 = w2) by (inversion Em; auto). subst w2.
+  eapply wid_inj; eauto.
+Qed.
+
+(* the one-slot channel never holds, and the read loop never forwards, a message for a foreign id *)
+Theorem routing tcp q0 s :
+  q0 <= 65536 -> reachable tcp q0 s ->
+  (forall t th m, tget s t = Some th -> tchan th = Some m -> twid th = Some (mhid m) /\ In m (emitted s)) /\
+  (forall m t, rl s = RSend m t -> exists th, tget s t = Some th /\ twid th = Some (mhid m)).
+Proof.
+  intros Hq R. pose proof (reachable_inv _ _ _ Hq R) as I. split.
+  - intros t th m G C. destruct (inv_threads _ _ I _ _ G) as (_ & _ & _ & K4 & _). auto.
+  - intros m t E. pose proof (inv_rl _ _ I) as F. rewrite E in F. cbn in F. tauto.
+Qed.
+
+(* ====================================================================================== *)
+(* C05_late_reply                                                                         *)
+(* ====================================================================================== *)
+(* Once exchange t has chosen its outcome ... *)
+Definition decided (th : thread) : Prop := pc_result (tpc th) <> None.
+(* ... and its deferred deleteQueueC has run *)
+Definition left_queue (th : thread) : Prop :=
+  match tpc th with PEol _ | PReturned _ => True | _ => False end.
+
+(* what can never be undone by later steps *)
+Definition ext (s s' : state) : Prop :=
+  incl (emitted s) (emitted s') /\ nemit s <= nemit s' /\
+  forall t th, tget s t = Some th ->
+    exists th', tget s' t = Some th' /\ cid th' = cid th /\
+      (forall w, twid th = Some w -> twid th' = Some w) /\
+      (forall r, pc_result (tpc th) = Some r -> pc_result (tpc th') = Some r) /\
+      (left_queue th -> left_queue th').
+
+Lemma ext_refl s : ext s s.
+Proof. repeat split; auto using incl_refl; try lia. intros t th G. exists th. auto. Qed.
+
+Lemma ext_trans a b c : ext a b -> ext b c -> ext a c.
+Proof.
+  intros (A1 & A2 & A3) (B1 & B2 & B3). repeat split.
+  - eapply incl_tran; eauto.
+  - lia.
+  - intros t th G. destruct (A3 _ _ G) as (x & Gx & C1 & W1 & R1 & L1).
+    destruct (B3 _ _ Gx) as (y & Gy & C2 & W2 & R2 & L2).
+    exists y. repeat split; auto. congruence.
+Qed.
+
+Lemma ext_same s s' :
+  threads s' = threads s -> emitted s' = emitted s -> nemit s' = nemit s -> ext s s'.
+Proof.
+  intros T E Nn. unfold ext, tget. rewrite T, E, Nn. repeat split; auto using incl_refl; try lia.
+  intros t th G. exists th. auto.
+Qed.
+
+Lemma ext_tput s t th th' :
+  tget s t = Some th -> cid th' = cid th ->
+  (forall w, twid th = Some w -> twid th' = Some w) ->
+  (forall r, pc_result (tpc th) = Some r -> pc_result (tpc th') = Some r) ->
+  (left_queue th -> left_queue th') ->
+  ext s (tput t th' s).
+Proof.
+  intros G C W P L. split; [apply incl_refl|]. split; [cbn; lia|].
+  intros t' x Gx. destruct (N.eq_dec t' t) as [->|Hn].
+  - rewrite G in Gx. inversion Gx; subst x. exists th'. rewrite tget_tput_same, G. auto.
+  - exists x. rewrite tget_tput_other by auto. auto.
+Qed.
+
+Ltac exttac P :=
+  eapply ext_tput; eauto; unfold left_queue; try rewrite P; cbn; try discriminate; try tauto.
+
+Lemma step_ext q0 s l s' : Inv q0 s -> step s l = Some s' -> ext s s'.
+Proof.
+  intros I. destruct l; cbn [step].
+  - intros H; inversion H; subst; clear H. repeat split; cbn; auto using incl_refl; try lia.
+    intros t th G. exists th. repeat split; auto.
+    destruct (inv_threads _ _ I _ _ G) as (K1 & _).
+    unfold tget. cbn. destruct (t =? nthreads s) eqn:E; auto. apply N.eqb_eq in E. lia.
+  - destruct (tget s t) as [th|] eqn:G; [|discriminate]. intros H; inversion H; subst; clear H.
+    eapply ext_tput; eauto.
+  - intros H; inversion H; subst; clear H. destruct (_ <? _); [apply ext_same; reflexivity|apply ext_refl].
+  - destruct (tget s t) as [th|] eqn:G; [|discriminate].
+    destruct (tpc th) eqn:P; try discriminate.
+    destruct (inv_threads _ _ I _ _ G) as (_ & _ & K3 & _). pose proof (K3 P) as Wn.
+    set (s1 := if 0 <? reserved s then set_reserved (reserved s - 1) s else s).
+    assert (E1 : ext s s1) by (unfold s1; destruct (_ <? _); [apply ext_same; reflexivity|apply ext_refl]).
+    assert (G1 : tget s1 t = Some th) by (unfold s1; destruct (_ <? _); auto).
+    destruct (65535 <? nextQid s).
+    + intros H; inversion H; subst; clear H. eapply ext_trans; [exact E1|].
+      exttac P.
+    + intros H; inversion H; subst; clear H. eapply ext_trans; [exact E1|]. fold s1.
+      eapply ext_trans; [|eapply ext_tput with (th := th)]; [apply ext_same; reflexivity|exact G1|reflexivity| | |].
+      * rewrite Wn. discriminate.
+      * rewrite P. discriminate.
+      * unfold left_queue. rewrite P. tauto.
+  - destruct (tget s t) as [th|] eqn:G; [|discriminate].
+    destruct (tpc th) eqn:P; try discriminate.
+    destruct ok.
+    + destruct (closed s); [discriminate|]. intros H; inversion H; subst; clear H.
+      exttac P.
+    + intros H; inversion H; subst; clear H.
+      exttac P.
+  - destruct (closed s); [discriminate|]. destruct (i <? 65536); [|discriminate].
+    destruct (rl s); try discriminate. intros H; inversion H; subst; clear H.
+    repeat split; cbn; try lia.
+    + apply incl_tl, incl_refl.
+    + intros t th G. exists th. auto.
+  - destruct (closed s); [discriminate|]. destruct (rl s); try discriminate.
+    intros H; inversion H; subst; clear H. destruct (istcp s); [apply ext_same; reflexivity|apply ext_refl].
+  - destruct (rl s); try discriminate. intros H; inversion H; subst; clear H. apply ext_same; reflexivity.
+  - destruct (rl s) as [|m|m t]; try discriminate.
+    destruct (tget s t) as [th|] eqn:G; [|discriminate]. intros H; inversion H; subst; clear H.
+    destruct (tchan th).
+    + apply ext_same; reflexivity.
+    + eapply ext_trans; [eapply ext_tput with (th := th) (th' := th_chan (Some m) th); eauto|].
+      apply ext_same; reflexivity.
+  - destruct (tget s t) as [th|] eqn:G; [|discriminate].
+    destruct (tpc th) eqn:P; try discriminate.
+    destruct (tchan th); [|discriminate]. intros H; inversion H; subst; clear H.
+    exttac P.
+  - destruct (tget s t) as [th|] eqn:G; [|discriminate].
+    destruct (tpc th) eqn:P; try discriminate.
+    destruct (tcancel th); [|discriminate]. intros H; inversion H; subst; clear H.
+    exttac P.
+  - destruct (tget s t) as [th|] eqn:G; [|discriminate].
+    destruct (tpc th) eqn:P; try discriminate.
+    destruct (closed s); [|discriminate]. intros H; inversion H; subst; clear H.
+    exttac P.
+  - destruct (tget s t) as [th|] eqn:G; [|discriminate].
+    destruct (tpc th) eqn:P; try discriminate.
+    destruct (twid th) as [w|] eqn:W; [|discriminate]. intros H; inversion H; subst; clear H.
+    eapply ext_trans; [apply (ext_same s (set_queue (aremove w (queue s)) s)); reflexivity|].
+    eapply ext_tput; eauto.
+    + rewrite P. cbn. intros r0 Hr. destruct (_ && _); exact Hr.
+    + unfold left_queue. rewrite P. tauto.
+  - destruct (tget s t) as [th|] eqn:G; [|discriminate].
+    destruct (tpc th) eqn:P; try discriminate. intros H; inversion H; subst; clear H.
+    eapply ext_trans; [apply (ext_same s (set_closed true s)); reflexivity|].
+    eapply ext_tput; eauto.
+    + rewrite P. cbn. auto.
+    + unfold left_queue. cbn. auto.
+  - intros H; inversion H; subst; clear H. apply ext_same; reflexivity.
+Qed.
+
+Lemma run_ext q0 ls s s' : Inv q0 s -> run ls s = Some s' -> ext s s'.
+Proof.
+  revert s. induction ls as [|l ls IH]; cbn; intros s I H.
+  - inversion H; subst. apply ext_refl.
+  - destruct (step s l) as [s1|] eqn:E; [|discriminate].
+    eapply ext_trans; [eapply step_ext; eauto|]. eapply IH; eauto. eapply step_inv; eauto.
+Qed.
+
+(* (a) discarded: after deleteQueueC the id has no waiter (and never will: ids are fresh), so getQueueC
+       returns nil for any later message carrying it *)
+Theorem late_reply_discarded tcp q0 s t th w :
+  q0 <= 65536 -> reachable tcp q0 s ->
+  tget s t = Some th -> twid th = Some w -> left_queue th ->
+  forall ls s', run ls s = Some s' -> alookup w (queue s') = None.
+Proof.
+  intros Hq R G W L ls s' Run.
+  pose proof (reachable_inv _ _ _ Hq R) as I.
+  pose proof (run_inv _ _ _ _ I Run) as I'.
+  destruct (run_ext _ _ _ _ I Run) as (_ & _ & E3).
+  destruct (E3 _ _ G) as (th' & G' & _ & W' & P' & L').
+  destruct (alookup w (queue s')) as [t'|] eqn:Q; auto.
+  destruct (inv_queue _ _ I' _ _ Q) as (x & Gx & Wx & Ax).
+  assert (t' = t) by (eapply wid_inj; eauto). subst t'.
+  rewrite G' in Gx. inversion Gx; subst x; clear Gx.
+  apply L' in L. unfold left_queue in L. destruct (tpc th'); cbn in *; contradiction.
+Qed.
+
+(* (b) a message instance received after exchange t decided (instance number >= nemit s), carrying t's
+       wire id, is never returned by ANY exchange, whatever happens later *)
+Theorem late_reply_never_returned tcp q0 s t th w :
+  q0 <= 65536 -> reachable tcp q0 s ->
+  tget s t = Some th -> twid th = Some w -> decided th ->
+  forall ls s', run ls s = Some s' ->
+  forall m, In m (emitted s') -> nemit s <= mid m -> mhid m = w ->
+  forall t' th' r, tget s' t' = Some th' -> pc_result (tpc th') = Some (RMsg r) -> mid r <> mid m.
+Proof.
+  intros Hq R G W D ls s' Run m Hm Hlate Hid t' th' r G' P' Emid.
+  pose proof (reachable_inv _ _ _ Hq R) as I.
+  pose proof (run_inv _ _ _ _ I Run) as I'.
+  destruct (run_ext _ _ _ _ I Run) as (_ & _ & E3).
+  destruct (E3 _ _ G) as (th1 & G1 & _ & W1 & P1 & _).
+  destruct (inv_threads _ _ I' _ _ G') as (_ & _ & _ & _ & K5).
+  destruct (K5 _ P') as (w' & Ww' & Hin' & _).
+  assert (Em : with_id r w' = m).
+  { eapply in_mid_nodup; eauto using (inv_mid_nodup _ _ I'). }
+  assert (w' = w) by (rewrite <- Hid, <- Em; reflexivity). subst w'.
+  assert (t' = t) by (eapply wid_inj; eauto). subst t'.
+  rewrite G1 in G'. inversion G'; subst th'; clear G'.
+  unfold decided in D. destruct (pc_result (tpc th)) as [r0|] eqn:P0; [|congruence].
+  specialize (P1 _ eq_refl). rewrite P1 in P'. inversion P'; subst r0; clear P'.
+  destruct (inv_threads _ _ I _ _ G) as (_ & _ & _ & _ & L5).
+  destruct (L5 _ P0) as (w0 & Ww0 & Hin0 & _).
+  apply (inv_mid _ _ I) in Hin0. cbn in Hin0. lia.
+Qed.
+
+(* ====================================================================================== *)
+(* big_refines_small                                                                      *)
+(* ====================================================================================== *)
+Definition sched (s s' : state) : Prop := exists ls, run ls s = Some s'.
+
+Lemma sched_refl s : sched s s. Proof. exists []. reflexivity. Qed.
+Lemma sched_trans a b c : sched a b -> sched b c -> sched a c.
+Proof. intros [l1 H1] [l2 H2]. exists (l1 ++ l2). eapply run_app; eauto. Qed.
+
+Lemma sched_exec s l : sched s (exec s l).
+Proof.
+  unfold exec. destruct (step s l) as [s'|] eqn:E; [|apply sched_refl].
+  exists [l]. cbn. rewrite E. reflexivity.
+Qed.
+
+Lemma sched_fold {A} (f : state -> A -> state) (l : list A) :
+  (forall s a, sched s (f s a)) -> forall s, sched s (fold_left f l s).
+Proof.
+  intros Hf. induction l as [|a l IH]; cbn; intros s; [apply sched_refl|].
+  eapply sched_trans; [apply Hf|apply IH].
+Qed.
+
+Lemma sched_settle t s : sched s (settle t s).
+Proof. unfold settle. apply sched_fold. apply sched_exec. Qed.
+
+Lemma sched_settle_all s : sched s (settle_all s).
+Proof. unfold settle_all. apply sched_fold. intros. apply sched_settle. Qed.
+
+Lemma sched_do_emit i tag s : sched s (do_emit i tag s).
+Proof.
+  unfold do_emit.
+  set (s1 := exec (exec s (LRecv i tag)) LLookup).
+  assert (H1 : sched s s1) by (eapply sched_trans; apply sched_exec).
+  assert (H2 : sched s (exec s1 LSend)) by (eapply sched_trans; [exact H1|apply sched_exec]).
+  destruct (rl s1); auto. eapply sched_trans; [exact H2|apply sched_settle].
+Qed.
+
+Lemma sched_big_step s e : sched s (big_step s e).
+Proof.
+  destruct e; cbn [big_step].
+  - eapply sched_trans; [|apply sched_settle]. apply sched_fold. apply sched_exec.
+  - destruct (tget s k) as [th|]; [|apply sched_refl].
+    destruct (twid th); [apply sched_do_emit|apply sched_refl].
+  - apply sched_do_emit.
+  - eapply sched_trans; [apply sched_exec|apply sched_settle_all].
+  - eapply sched_trans; [apply sched_exec|apply sched_settle].
+  - eapply sched_trans; [apply sched_exec|apply sched_settle_all].
+Qed.
+
+(* every quiescent history's big-step result is reached by a schedule of the small-step system *)
+Theorem big_refines_small tcp q0 evs : reachable tcp q0 (run_history tcp q0 evs).
+Proof.
+  unfold reachable, run_history. apply (sched_fold big_step evs sched_big_step).
+Qed.
